@@ -100,8 +100,8 @@ PLAN = {
         "level_note": "Trusted: pyvc encoder; h2 window accounting as modelled; priority scheduling order not modelled; liveness only via safety surrogates.",
     },
     "C08": {
-        "units": [SB + m for m in ("__init__", "push", "pop", "drain", "set_complete", "close", "complete")],
-        "trusted_base": [],
+        "units": [SB + m for m in ("__init__", "push", "pop", "drain", "set_complete", "close", "complete")] + [HP + m for m in ("_window_updated", "_send_data", "stream_send", "handle", "send_task")],
+        "trusted_base": LIB_H2,
         "assumptions": COMMON_ASSUME,
         "explanation": "send backpressure: bound and release obligations on StreamBuffer and its users",
         "level_text": "Every obligation (postconditions, class invariant, rely/guarantee, frame, atomicity) generated from the real StreamBuffer/H2Protocol code is discharged by z3 for all inputs, states and await-level interleavings; bound and release clauses are transcribed from the property statement.",
